@@ -62,10 +62,10 @@ pub fn ops_from_tokens(groups: &[Vec<u64>]) -> Vec<Op> {
             (ver, t[j + 1..j + 1 + n].iter().map(|x| *x as u8).collect(), j + 1 + n)
         };
         match tag {
-            0 | 17 => {
+            0 | 17 | 18 => {
                 let (ver, b, _) = bytes_after_view(1);
                 if let Some(p) = packet_from_bytes(ver, &b) {
-                    out.push(if tag == 0 { Op::Send(p) } else { Op::Regulate(p) });
+                    out.push(if tag == 0 { Op::Send(p) } else if tag == 18 { Op::CheckedSend(p) } else { Op::Regulate(p) });
                 }
             }
             1 => {
@@ -898,6 +898,7 @@ impl CaseStats {
 #[derive(Clone)]
 pub enum Op {
     Send(Packet),
+    CheckedSend(Packet),         // the compile-time-checked entry point (recorded as a Send)
     Recv(Vec<u8>),               // one recv() call on this buffer (the unread rest is re-fed by the next op)
     Timer(u64),
     Closed,
@@ -913,7 +914,65 @@ pub enum Op {
     Regulate(Packet),
 }
 
-pub struct Runner<R: mqtt::connection::role::RoleType> {
+
+/// `checked_send` with the concrete packet type, where rustc accepts it for the role (autoref
+/// specialisation: resolves to the real call iff `T: Sendable<Role, Pid>`), else None
+pub trait HRole: mqtt::connection::role::RoleType + Sized {
+    fn checked(c: &mut Conn<Self>, p: &Packet) -> Option<Vec<GenericEvent<Pid>>>;
+}
+pub struct Try<'a, R: mqtt::connection::role::RoleType, T>(pub std::cell::RefCell<Option<(&'a mut Conn<R>, T)>>);
+pub trait TryYes {
+    fn go(&self) -> Option<Vec<GenericEvent<Pid>>>;
+}
+impl<'a, R: mqtt::connection::role::RoleType, T: mqtt::connection::Sendable<R, Pid>> TryYes for Try<'a, R, T> {
+    fn go(&self) -> Option<Vec<GenericEvent<Pid>>> {
+        let (c, t) = self.0.borrow_mut().take().unwrap();
+        Some(c.checked_send(t))
+    }
+}
+pub trait TryNo {
+    fn go(&self) -> Option<Vec<GenericEvent<Pid>>>;
+}
+impl<'a, R: mqtt::connection::role::RoleType, T> TryNo for &Try<'a, R, T> {
+    fn go(&self) -> Option<Vec<GenericEvent<Pid>>> {
+        None
+    }
+}
+macro_rules! checked_impl {
+    ($role:ty) => {
+        impl HRole for $role {
+            fn checked(c: &mut Conn<Self>, p: &Packet) -> Option<Vec<GenericEvent<Pid>>> {
+                macro_rules! t {
+                    ($x:expr) => {
+                        (&Try::<$role, _>(std::cell::RefCell::new(Some((c, $x.clone()))))).go()
+                    };
+                }
+                match p {
+                    GenericPacket::V3_1_1Connect(x) => t!(x), GenericPacket::V5_0Connect(x) => t!(x),
+                    GenericPacket::V3_1_1Connack(x) => t!(x), GenericPacket::V5_0Connack(x) => t!(x),
+                    GenericPacket::V3_1_1Publish(x) => t!(x), GenericPacket::V5_0Publish(x) => t!(x),
+                    GenericPacket::V3_1_1Puback(x) => t!(x), GenericPacket::V5_0Puback(x) => t!(x),
+                    GenericPacket::V3_1_1Pubrec(x) => t!(x), GenericPacket::V5_0Pubrec(x) => t!(x),
+                    GenericPacket::V3_1_1Pubrel(x) => t!(x), GenericPacket::V5_0Pubrel(x) => t!(x),
+                    GenericPacket::V3_1_1Pubcomp(x) => t!(x), GenericPacket::V5_0Pubcomp(x) => t!(x),
+                    GenericPacket::V3_1_1Subscribe(x) => t!(x), GenericPacket::V5_0Subscribe(x) => t!(x),
+                    GenericPacket::V3_1_1Suback(x) => t!(x), GenericPacket::V5_0Suback(x) => t!(x),
+                    GenericPacket::V3_1_1Unsubscribe(x) => t!(x), GenericPacket::V5_0Unsubscribe(x) => t!(x),
+                    GenericPacket::V3_1_1Unsuback(x) => t!(x), GenericPacket::V5_0Unsuback(x) => t!(x),
+                    GenericPacket::V3_1_1Pingreq(x) => t!(x), GenericPacket::V5_0Pingreq(x) => t!(x),
+                    GenericPacket::V3_1_1Pingresp(x) => t!(x), GenericPacket::V5_0Pingresp(x) => t!(x),
+                    GenericPacket::V3_1_1Disconnect(x) => t!(x), GenericPacket::V5_0Disconnect(x) => t!(x),
+                    GenericPacket::V5_0Auth(x) => t!(x),
+                }
+            }
+        }
+    };
+}
+checked_impl!(mqtt::connection::role::Client);
+checked_impl!(mqtt::connection::role::Server);
+checked_impl!(mqtt::connection::role::Any);
+
+pub struct Runner<R: HRole> {
     pub conn: Option<Conn<R>>,
     pub shadow_pb: PacketBuilder,
     pub out: Vec<u64>,
@@ -925,7 +984,7 @@ pub struct Runner<R: mqtt::connection::role::RoleType> {
     pub last_unread: usize,
 }
 
-impl<R: mqtt::connection::role::RoleType> Runner<R> {
+impl<R: HRole> Runner<R> {
     pub fn new(ver: Version, role_n: u64, ver_n: u64) -> Self {
         let mut out = Vec::new();
         out.extend_from_slice(&[role_n, IDMAX, IDW, ver_n]);
@@ -955,8 +1014,8 @@ impl<R: mqtt::connection::role::RoleType> Runner<R> {
         st.statuses[c.verif_state().status as usize] += 1;
         // ---- encode the op (and the parse oracle for Recv) ----
         match op {
-            Op::Send(p) => {
-                rec.push(0);
+            Op::Send(p) | Op::CheckedSend(p) => {
+                rec.push(if let Op::CheckedSend(_) = op { 18 } else { 0 });
                 view(p).enc(&mut rec);
                 push_bytes(&mut rec, &p.to_continuous_buffer());
             }
@@ -1064,6 +1123,10 @@ impl<R: mqtt::connection::role::RoleType> Runner<R> {
         let r = catch_unwind(AssertUnwindSafe(|| -> (Vec<GenericEvent<Pid>>, Vec<u64>) {
             match op {
                 Op::Send(p) => (c.send(p.clone()), vec![]),
+                Op::CheckedSend(p) => match R::checked(c, p) {
+                    Some(ev) => (ev, vec![]),
+                    None => (c.send(p.clone()), vec![]),   // not sendable for this role at compile time: the run-time path
+                },
                 Op::Recv(bytes) => {
                     let mut cur = Cursor::new(&bytes[..]);
                     let ev = c.recv(&mut cur);
